@@ -314,3 +314,41 @@ Proof.
   intros Hs H. apply in_flat_map in H. destruct H as [x [Hx Hy]].
   apply in_flat_map. exists x. split; [eapply sublist_In; eassumption|exact Hy].
 Qed.
+
+(** ---- env_of_dict, more ------------------------------------------------------------- *)
+
+Lemma lookup_env_of_dict_notin k d e : ~ In k (keys d) -> lookup k (env_of_dict d e) = lookup k e.
+Proof.
+  intro H. rewrite lookup_env_of_dict.
+  assert (E : lookup k (rev d) = None).
+  { apply lookup_None. rewrite keys_rev. intro Hin. apply H. apply in_rev. exact Hin. }
+  rewrite E. reflexivity.
+Qed.
+
+Lemma lookup_env_of_dict_nodup k d e :
+  NoDup (keys d) ->
+  lookup k (env_of_dict d e) = match lookup k d with Some v => Some v | None => lookup k e end.
+Proof. intro H. rewrite lookup_env_of_dict, lookup_rev_NoDup by exact H. reflexivity. Qed.
+
+Lemma lookup_env_of_dict_in k v d e :
+  NoDup (keys d) -> In (k, v) d -> lookup k (env_of_dict d e) = Some v.
+Proof.
+  intros Hnd Hin. rewrite lookup_env_of_dict_nodup by exact Hnd.
+  rewrite (lookup_NoDup k v d Hnd Hin). reflexivity.
+Qed.
+
+(** init_conditions has the shape of select *)
+Lemma init_conditions_spec vars dep r :
+  init_conditions vars dep = Val r -> keys r = vars /\ forall k v, In (k, v) r -> lookup k dep = Some v.
+Proof.
+  revert r. induction vars as [|k rest IH]; intros r H; cbn [init_conditions] in H.
+  - injection H as <-. split; [reflexivity|intros ? ? []].
+  - destruct (lookup k dep) as [v|] eqn:E; [|discriminate].
+    destruct (init_conditions rest dep) as [r'|] eqn:E'; [|discriminate]. cbn [bind] in H. injection H as <-.
+    destruct (IH r' eq_refl) as [Hk Hv]. split.
+    + cbn [keys map fst]. f_equal. exact Hk.
+    + intros k' v' [Eq|Hin]; [injection Eq as <- <-; exact E|apply Hv; exact Hin].
+Qed.
+
+Lemma in_keys {A} k (v : A) (l : list (name * A)) : In (k, v) l -> In k (keys l).
+Proof. intro H. apply (in_map fst) in H. exact H. Qed.
